@@ -43,6 +43,7 @@ func c04Gen(c *core.Ctx, idx int) (*dp.Schema, *dp.DNode, bool) {
 	o.NestedChoice = idx%6 == 1
 	o.Aug = idx%5 == 2
 	o.Sub = idx%5 == 4
+	o.ListsOfAll = true
 	o.Presence = true
 	o.NonConfig = idx%2 == 0
 	o.MaxDepth = 2 + r.Intn(3)
